@@ -15,6 +15,7 @@
     direlem_attrs_witness
     regex_flags_documented scan_new_lossless scan_old_lossless scan_new_print_roundtrip
     text_reaches_stream_escaped text_reaches_stream_escaped_old text_reaches_output_verbatim
+    expression_boundaries_text_template scan_old_line_roundtrip_partial
 -/
 import Genshi.Lemmas.TmplSimMain
 import Genshi.Lemmas.TmplSimRev
@@ -651,6 +652,48 @@ theorem text_reaches_output_verbatim (s : List Char) (data : Env) (fuel : Nat) :
   simp [implRender, compileNodes, compileNode, run, seq, bind, Except.bind, pure, Except.pure]
 
 example : parseNew cs!"a\\{% b \\\\ %}\n" = .ok [.text cs!"a{% b \\ %}\n"] := by rfl
+
+/-- **Printer round trip (old syntax), partial.**
+    Full statement (open): for every well-formed old-syntax token list `ts` (texts that end a line,
+    with `\#` escapes; directive lines `[blanks]#cmd value`; comment lines `[blanks]##…`),
+    `(scanOld (printOld ts)).map cookOld = ts`.
+    Proved here, for all texts around them: (1) a directive or comment line at a line start (start
+    of the template or behind a line feed) is scanned as *one* token carrying exactly its blanks and
+    its body, and scanning goes on at the line start behind it; (2) `lstrip()[1:].split(None, 1)` of
+    such a line gives back the command and the value (with the line feed the old syntax leaves on
+    it).  Together with `text_reaches_stream_escaped_old` (escaped text holds no directive line and
+    is undone by the unescape) these are the three cases of the induction over `ts`, which is
+    missing (a text in front of a line must end in a line feed). -/
+theorem scan_old_line_roundtrip_partial :
+    (∀ (b line rest acc : List Char) (c0 p : Char) (first : Bool), (∀ c ∈ b, isBlank c = true) →
+      (Genshi.San.isReWord c0 = true ∨ c0 = '#') → (∀ c ∈ c0 :: line, c ≠ '\n') → (first = true ∨ p = '\n') →
+      scanOldGo 0 first p acc (b ++ '#' :: c0 :: (line ++ '\n' :: rest)) =
+        flushOld acc ++ OTok.line b (c0 :: (line ++ ['\n'])) :: scanOldGo 0 false '\n' [] rest) ∧
+    (∀ (b cmd val : List Char), (∀ c ∈ b, isBlank c = true) → (∀ c ∈ cmd, Genshi.San.isSpace c = false) → cmd ≠ [] →
+      (∀ c, val.head? = some c → Genshi.San.isSpace c = false) → val ≠ [] →
+      splitLine b (cmd ++ ' ' :: (val ++ ['\n'])) = (cmd, some (val ++ ['\n']))) :=
+  ⟨fun b line rest acc c0 p first hb hc hl hs => scanOld_line b line rest acc c0 p first hb hc hl hs,
+   fun b cmd val hb hc hne hv hvne => splitLine_print b cmd val hb hc hne hv hvne⟩
+
+example : scanOld cs!"  #if x\nb\n" = [.line cs!"  " cs!"if x\n", .text cs!"b\n"] ∧
+    splitLine cs!"  " cs!"if x\n" = (cs!"if", some cs!"x\n") := by decide
+
+/-- **Interpolation composed with the scanner.**  In a plain text template `pre ${inner} post` (no
+    backslash or start delimiter anywhere, no `$` in `pre` / `post`) the parsed stream is the text
+    before, one EXPR event whose source is exactly `inner` and the text after, for every scannable
+    `inner` (C03's `lex_expr`: string literals holding braces, braces nested to any depth). -/
+theorem expression_boundaries_text_template (pre inner post : List Char)
+    (hpre : ∀ c ∈ pre, c ≠ '$') (hpost : ∀ c ∈ post, c ≠ '$')
+    (hi : Genshi.Py.Lex.Scannable inner) (hin : inner ≠ [])
+    (hp : plainNew (pre ++ '$' :: '{' :: (inner ++ '}' :: post)) = true)
+    (hm : Genshi.Py.Lex.unmodelled (pre ++ '$' :: '{' :: (inner ++ '}' :: post)) = false) :
+    parseNew (pre ++ '$' :: '{' :: (inner ++ '}' :: post)) =
+      .ok (flushBuf pre ++ [.expr (Genshi.Py.Lex.stripAscii inner)] ++ flushBuf post) :=
+  parseNew_expr pre inner post hpre hpost hi hin hp hm
+
+example : Genshi.Py.Lex.Scannable cs!"x" ∧ plainNew cs!"a ${x}!" = true ∧ Genshi.Py.Lex.unmodelled cs!"a ${x}!" = false :=
+  ⟨.word 'x' [] (by decide) .nil, by decide, by decide⟩
+example : parseNew cs!"a ${x}!" = .ok [.text cs!"a ", .expr cs!"x", .text cs!"!"] := by rfl
 
 end Scanners
 
